@@ -2,12 +2,12 @@
 
 check("C09", "model_checking",
       "TLC enumerates the complete product of TLSVerify.tla (issuer x validity x key usage x name set x pin list x role x name mode, plus the "
-      "stream-listener family and the history family: call sequences on one long-lived instance) and proves on it: the verdict is a function of (certificate, configuration), acceptance implies all five conditions, every single-condition failure refuses, role separation, "
+      "stream-listener family and the history family: call sequences on one long-lived instance; the clock family: verifier creation and handshake as two steps in time) and proves on it: the verdict is a function of (certificate, configuration), acceptance implies all five conditions, every single-condition failure refuses, role separation, "
       "dNSNames never stand in for receptor names, pins only restrict, the listener binds the certificate to the packet source. Every vector is then "
       "concretised into real X.509 chains, pins and configurations (several 'other name' variants, two SAN encoders) and the real code's verdict is "
       "observed at four layers: ReceptorVerifyFunc, the verifier installed by Prepare*Config/GetClientTLSConfig, a crypto/tls handshake over an "
       "in-memory pipe, and DialContext/Accept between real nodes. Real accepts must imply spec accepts; for well-formed pin lists the converse too.",
-      "Trusted: Go crypto/x509 and crypto/tls. Time is tested 2 h inside/outside the window, not at the boundary instant. Handshakes cover all vectors "
+      "Trusted: Go crypto/x509 and crypto/tls. Time is tested 2 h inside/outside the window in the table and 1 s (half a real-time tick) in the clock family, not at the boundary instant. Handshakes cover all vectors "
       "with at most one failing condition plus a seeded sample; the quick tier dials a stratified sample of the stream vectors (thorough: all). "
       "Fixed: C09:stream-name-colon-split (8d11383; node ids containing ':'); the legacy rule is kept as the failing variant TLSVerify_colonsplit.cfg.",
       "TLA+ decision-table spec, TLC exhaustive enumeration, vector replay into the real verifier/configuration/handshake/mesh (B1)",
